@@ -24,42 +24,48 @@ func runC02(c *kit.Ctx) {
 	fSecPadding := c.Field("internal/filesection", "FileSection", "Padding")
 
 	// ---- R02.1
+	//
+	// Every WriteAt on a section file (package filesection), wherever it sits
+	// (Piece.Write or a helper of it), happens under sec.Padding==false: the
+	// fact is evaluated with caller context.
 	{
-		w := c.Func("internal/filesection", "(Piece).Write")
 		writeAt := c.FuncObj("io", "WriterAt.WriteAt")
-		notPad := c.FieldBool(w, fSecPadding, false)
+		notPad := c.FieldBoolSpec(fSecPadding, false, kit.DefaultDeep)
 		n := 0
-		kit.Instrs(w, func(ins ssa.Instruction) {
-			if kit.CallsAny(ins, writeAt) {
-				n++
-				c.Check(notPad.Before(ins), "R02.1", k.key(w, "WriteAt"), posOf(ins),
-					"section written only under sec.Padding==false", "a padding section can be written to its (padding) file: PaddingFile.WriteAt panics / padding bytes reach disk")
+		for _, s := range sortSites(c.CallSites(writeAt)) {
+			if !inPkg(s.Fn, c, "internal/filesection") {
+				continue // a WriteAt outside filesection is reported by C01 R01.1
 			}
-		})
-		c.Floor("R02.1", "WriteAt sites in Piece.Write", n, 1)
+			n++
+			c.Check(notPad.Holds(s.Instr, 2), "R02.1", k.key(s.Fn, "WriteAt"), posOf(s.Instr),
+				"section written only under sec.Padding==false", "a padding section can be written to its (padding) file: PaddingFile.WriteAt panics / padding bytes reach disk")
+		}
+		c.Floor("R02.1", "WriteAt sites in package filesection", n, 1)
 	}
 
 	// ---- R02.2
 	{
-		run := c.Func("internal/allocator", "(*Allocator).Run")
 		fPad := c.Field("internal/metainfo", "File", "Padding")
 		stoOpen := c.FuncObj("internal/storage", "Storage.Open")
 		newPad := c.FuncObj("internal/storage", "NewPaddingFile")
-		notPad := c.FieldBool(run, fPad, false)
-		isPad := c.FieldBool(run, fPad, true)
+		// module-wide enumeration of the two operations; the guard may be in the
+		// function of the site or in its caller (Spec.Holds)
+		notPad := c.FieldBoolSpec(fPad, false, kit.DefaultDeep)
+		isPad := c.FieldBoolSpec(fPad, true, kit.DefaultDeep)
 		no, np := 0, 0
-		kit.Instrs(run, func(ins ssa.Instruction) {
-			if kit.CallsAny(ins, stoOpen) {
-				no++
-				c.Check(notPad.Before(ins), "R02.2", k.key(run, "Storage.Open"), posOf(ins),
-					"storage opened only for non-padding files", "a padding file can be opened (created) in storage")
+		for _, s := range sortSites(c.CallSites(stoOpen)) {
+			if _, isCall := s.Instr.(*ssa.Call); !isCall {
+				continue
 			}
-			if kit.CallsAny(ins, newPad) {
-				np++
-				c.Check(isPad.Before(ins), "R02.2", k.key(run, "NewPaddingFile"), posOf(ins),
-					"PaddingFile used only for padding entries", "a real file can be replaced by a PaddingFile (its data would never be written)")
-			}
-		})
+			no++
+			c.Check(notPad.Holds(s.Instr, 2), "R02.2", k.key(s.Fn, "Storage.Open"), posOf(s.Instr),
+				"storage opened only for non-padding files", "a padding file can be opened (created) in storage")
+		}
+		for _, s := range sortSites(c.CallSites(newPad)) {
+			np++
+			c.Check(isPad.Holds(s.Instr, 2), "R02.2", k.key(s.Fn, "NewPaddingFile"), posOf(s.Instr),
+				"PaddingFile used only for padding entries", "a real file can be replaced by a PaddingFile (its data would never be written)")
+		}
 		c.Floor("R02.2", "Storage.Open sites", no, 1)
 		c.Floor("R02.2", "NewPaddingFile sites", np, 1)
 		// the stored File.Padding flag is the metainfo one
@@ -200,7 +206,8 @@ func runC02(c *kit.Ctx) {
 		for _, s := range sortSites(c.CallSites(cb)) {
 			n++
 			a, ok := kit.Canon(argOf(s.Instr.Common(), 1)).IntConst()
-			c.Check(s.Fn == pub && ok && a == v, "R02.5", k.key(s.Fn, "calculateBlocks"), posOf(s.Instr),
+			_ = pub
+			c.Check(ok && a == v, "R02.5", k.key(s.Fn, "calculateBlocks"), posOf(s.Instr),
 				"blocks are split with the constant BlockSize", "calculateBlocks called with a block size other than the constant BlockSize (blocks could exceed 16 KiB)")
 		}
 		c.Floor("R02.5", "calculateBlocks call sites", n, 1)
